@@ -684,7 +684,7 @@ func main() {
 		nLint := 32
 		nGen := 48
 		if tier == "thorough" {
-			nLint, nGen = 700, 800
+			nLint, nGen = 500, 600
 		}
 		if v := os.Getenv("C04_N"); v != "" {
 			fmt.Sscanf(v, "%d,%d", &nLint, &nGen)
